@@ -50,6 +50,8 @@ def scenario_from(bad):
         for (i, v, p) in bad.get('log', []):
             if i >= idx:
                 break
+            if i < bad.get('first_step', 0):
+                continue        # operations of the prior backup: the native hook is armed after it
             if v == verb and (p == path or (pat.endswith('*') and p.startswith('d/'))):
                 occ += 1
         # occurrences are counted from the moment the hook is armed (the backup under test), not the prior backup
@@ -225,7 +227,8 @@ def normalize_trace(ops):
 def trace_conformance(sample, prop):
     """Replay one explored path natively with the same sizes/options/fault and compare the storage traces of the
     backup under test.  Returns None when they agree, else a description of the first difference."""
-    bad = {'case': sample['case'], 'model': sample.get('model') or {}, 'fired': sample.get('fired'), 'log': sample.get('log', []), 'problems': []}
+    bad = {'case': sample['case'], 'model': sample.get('model') or {}, 'fired': sample.get('fired'), 'log': sample.get('log', []), 'problems': [],
+           'first_step': sample.get('first_step', 0)}
     sc = scenario_from(bad)
     sc['follow_up'] = False
     out, path = runner.replay(sc, prop + '_conformance')
